@@ -91,6 +91,8 @@ func rulesC15(c *Ctx) {
 		"C15 (escrow shares are fair) — decided: (a) price shape: sharesForStake returns amount×TotalShares÷Balance and StakeForShares returns shares×Balance÷TotalShares, each as multiply-then-floor-divide on a clone of the argument, the 1:1 branch only for a pool without shares, no minting into a pool with shares but no balance, zero results only for zero inputs; (b) price before mutation: Deposit computes the shares before the stake enters the pool and credits the same share amount to the pool total and the holder; Withdraw computes the payout before shares are burnt, burns the same amount from the holder and the pool total, and pays exactly the computed amount from the pool balance; (c) slashing: both pools are slashed with the same amount and the same total (computed before either is touched), and the only movement out of a pool in slashPool is its balance×amount÷total; (d) debonding: reclaim withdraws the reclaimed shares from the active pool and deposits exactly the redeemed stake into the debonding pool, queues it at currentEpoch+DebondingInterval under that epoch key; the expired queue is scanned from its beginning and stops at the first entry after the given epoch; on epoch change each expired entry redeems all of its shares from the debonding pool into the delegator's general balance and, before the next entry or the end, is removed from the queue, its debonding delegation deleted and the accounts stored.",
 		"NOT decided: every inequality of the statement over all integers and interleavings (rounding accumulation, that no account's redeemable value falls because of another's operation, slashing proportionality beyond the formula shape, uniqueness of payout across blocks); these quantify over values and histories.")
 
+	rulesC15Round2(c)
+
 	// ---- (a) price shape
 	if fn := c.needFn("C15.price", pkStakingAPI+".(*SharePool).sharesForStake"); fn != nil {
 		var computed, oneToOne []ssa.Instruction
